@@ -2155,12 +2155,12 @@ impl<'de, 'e> de::Deserializer<'de> for YamlDeserializer<'de, 'e> {
                 K: de::DeserializeSeed<'de2>,
             {
                 let mut replay = ReplayEvents::new(events);
+
+                // Get location from replay events for error reporting (where the key is defined).
+                let location = replay.reference_location();
                 // An aliased key (`*k: v`) is *used* at the alias token; its recorded events carry
                 // the location of the anchored definition.
                 replay.ref_override = alias_use_location;
-
-                // Get location from replay events for error reporting.
-                let location = replay.reference_location();
 
                 let de = YamlDeserializer::<'de2, '_> {
                     ev: &mut replay,
@@ -2171,12 +2171,13 @@ impl<'de, 'e> de::Deserializer<'de> for YamlDeserializer<'de, 'e> {
                     #[cfg(any(feature = "garde", feature = "validator"))]
                     garde: None,
                 };
-                seed.deserialize(de).map_err(|e| {
-                    if e.location().is_none() {
-                        e.with_location(location)
-                    } else {
-                        e
+                seed.deserialize(de).map_err(|e| match alias_use_location {
+                    // `*k: v`: the error names the alias and the anchored key
+                    Some(use_location) => {
+                        attach_alias_locations_if_missing(e, use_location, location)
                     }
+                    None if e.location().is_none() => e.with_location(location),
+                    None => e,
                 })
             }
 
